@@ -637,6 +637,9 @@ func UnpackRRWithHeader(h RR_Header, msg []byte, off int) (rr RR, off1 int, err 
 		return rr, off, nil
 	}
 
+	// The unpackers treat the end of msg as the end of the RDATA.
+	msg = msg[:end]
+
 	off, err = rr.unpack(msg, off)
 	if err != nil {
 		return nil, end, err
